@@ -3,7 +3,7 @@ CONSTANTS Tabs = {1, 2}
   Classes = {0, 1, 2}
   Ptrs = {1, 2}
   Vals = {1, 2}
-  MaxSteps = 4
+  MaxSteps = 3
   FlagWords = {0, 1, 3, 4}
 INVARIANTS DeadIsEmpty IterInv WellFormed AtMostOnce NoDangling
 CONSTRAINT Bound
